@@ -13,6 +13,8 @@ MANIFEST_ENTRY = {
     "note": "NOT decided: the second sentence of the property -- that in every interleaving with (writers+1)*k <= N some version stays recoverable -- quantifies over schedules of several clients and is outside function contracts; so is the wiring in Publish.publish/update that passes the servermap's version to set_checkstring. Hence level 'other'.",
     "technique": "contract-based deductive verification (pyvc VCs + z3, uninterpreted big-endian codec) of the request-building functions; server and publisher contracts shared with C24/C47",
 }
+MANIFEST_ENTRY["text"] += ' Bounded end-to-end stand-in (run-time contract, never counted as proved): contracts/grid_mutable.py publishes 1..4 versions (plus a competing one) of SDMF/MDMF files on real StorageServers, composes the final disk state slot by slot from snapshots (newest/older/competing/deleted/bit-flipped/truncated/foreign), and checks reads, the MODE_READ survey, check/verify, repair with and without force, overwrite with failing servers and two concurrent writers against the ground truth on disk.'
+MANIFEST_ENTRY["technique"] += "; plus bounded end-to-end run-time scenario contracts on an in-process grid of the real components (stand-in, labelled bounded)"
 EXPLANATION = "Each write is a test-and-set against the surveyed version; a failed test is reported as an uncoordinated write."
 TRUSTED = ["struct big-endian codec"]
 ASSUMPTIONS = []
